@@ -29,6 +29,31 @@ def atoms_summary(ode):
     return out
 
 
+def divisor_with_relation(rm) -> bool:
+    """the model text divides by something that contains a relation / conditional used as a number (directly or through
+    the intermediates it names): the shape of the recorded ComplexInfinity findings"""
+    def walk(e, f, seen):
+        tag = e[0]
+        if f(e, seen):
+            return True
+        if tag in ("num", "pi", "int", "var"):
+            return False
+        return any(walk(x, f, seen) for x in (e[2:] if tag in ("fn", "rel", "ccond", "call") else e[1:]) if isinstance(x, tuple))
+
+    def is_rel(e, seen):
+        if e[0] in ("rel", "cond", "ccond", "and", "or", "not"):
+            return True
+        if e[0] == "var" and e[1] in rm.assigns and e[1] not in seen:
+            seen.add(e[1])
+            return walk(rm.assigns[e[1]], is_rel, seen)
+        return False
+
+    def is_bad_div(e, seen):
+        return e[0] == "div" and walk(e[2], is_rel, set())
+
+    return any(walk(e, is_bad_div, set()) for e in rm.assigns.values())
+
+
 def c11_case(ctx: Ctx, case: dict):
     text = case["text"]
     b0 = oracle.build_py(ctx, text, "C11", on_codegen_error="skip", scheme=SCHEMES)
@@ -53,7 +78,8 @@ def c11_case(ctx: Ctx, case: dict):
     except Exception as ex:
         bad = next((ln for ln in saved.splitlines() if not ctx.lean().call({"op": "parse", "text": ln + "\n"}).get("ok")), "")
         kind = ("constant-condition" if ("Conditional(0," in saved or "Conditional(1," in saved) else "ITE" if "ITE(" in saved else "E" if (" E" in bad or "E*" in bad or "(E" in bad) else "Ne" if "Ne(" in bad
-                else "tilde" if "~" in saved else "complex-constant" if "Symbol 'I' not found" in str(ex) else "other")
+                else "tilde" if "~" in saved else "complex-constant" if "Symbol 'I' not found" in str(ex)
+                else "complex-infinity" if ("Symbol 'zoo' not found" in str(ex) and divisor_with_relation(rm)) else "other")
         ctx.violate(f"C11/reload-rejected/{type(ex).__name__}/{kind}", f"the saved file is rejected by the loader: {type(ex).__name__}: {str(ex)[:90]}",
                     case=case, saved=saved)
         return
